@@ -324,7 +324,8 @@ DEFAULT_CFG = {
                                  # asked again about the same object it says "success" (None)
     "strat_obj": False,
     "rec_durs": [0],             # ticks spent inside the strategy object's record_failure (menu)
-    "abort_kind": "method",      # "falsy-object": abort_if is a callable object whose bool() is False
+    "abort_kind": "method",      # "falsy-object": abort_if is a callable object whose bool() is False;
+                                 # "eventlike": a callable object that also has is_set() / set() / wait()
     "unwind_ticks": 0,           # virtual loop: ticks the operation needs to clean up after it was
                                  # cancelled (by wait_for's timeout or by the caller)
     "deco_shared": False,        # one retry(...) decorator object is applied to a function of the
@@ -409,6 +410,8 @@ class World:
         if cfg["loop"]:
             from .vloop import VLoop
             self.loop = VLoop(self.clock)
+            # the library's default async sleeper (asyncio.sleep) is a real suspension point
+            self.clock.async_sleep_hook = lambda s: self._loop_sleep("default", s)
         self._pending = []
         self.inconclusive = False
         self._intr_done = False
@@ -550,6 +553,11 @@ class World:
             recovery_timeout_s=br.get("recovery", 4) * TAU,
             clock=E.v_monotonic,
         )
+        if br.get("clock_offset"):
+            # a caller-supplied clock with another reference point than time.monotonic()
+            # (time.time, an epoch-like fake): only differences of its readings mean anything
+            off = float(br["clock_offset"])
+            kw["clock"] = lambda: E.v_monotonic() + off
         if br.get("trip_on") is not None:
             kw["trip_on"] = {KL[k] for k in br["trip_on"]}
         if br.get("class_thresholds"):
@@ -1204,6 +1212,14 @@ class World:
         self._in_async_op = True
         if self.loop is not None:
             n, label, t0, d = self._op_body(advance=False)
+            if label.startswith("sc:"):
+                # while the attempt runs, somebody (the operation itself, a callback it triggers)
+                # asks for the task to be cancelled: asyncio delivers the CancelledError at the
+                # task's next suspension point
+                label = label[3:]
+                asyncio.current_task().cancel()
+                self.trace.append(("cancel_requested", n))
+                return self._op_finish(n, label, t0, self.rel())
             try:
                 await self.loop.pause(d * TAU)
             except asyncio.CancelledError:
@@ -1298,6 +1314,24 @@ class World:
                     def __call__(self):
                         return world.abort_if()
                 kw["abort_if"] = StopToken()
+            elif cfg["abort_kind"] == "eventlike":
+                world = self
+
+                class Shutdown:
+                    """__call__ means "draining or killed"; is_set() reports the kill flag only."""
+
+                    def __call__(self):
+                        return world.abort_if()
+
+                    def is_set(self):
+                        return False
+
+                    def set(self):
+                        pass
+
+                    def wait(self, timeout=None):
+                        return False
+                kw["abort_if"] = Shutdown()
             else:
                 kw["abort_if"] = self.abort_if
         if not deco:
